@@ -119,6 +119,9 @@ Proof.
                    | |- context [match post ?cc with _ => _ end] => destruct (post cc)
                    | |- context [match ?st with SPre _ => _ | _ => _ end] => destruct st
                    end; sp0; wq_plain s W).
+  - (* drop pool *)
+    apply WQ_same with (2 := eq_refl) (3 := eq_refl) (1 := eq_refl).
+    apply WQ_setpc; [|reflexivity]. apply WQ_same with s; autorewrite with fld; sp; try reflexivity. exact W.
   - (* resize *)
     apply WQ_same with (2 := eq_refl) (3 := eq_refl) (1 := eq_refl).
     apply WQ_setpc; [|reflexivity]. apply WQ_resize; assumption.
@@ -130,7 +133,4 @@ Proof.
     apply WQ_setpc; [|reflexivity]. apply WQ_same with s; autorewrite with fld; sp; try assumption.
   - (* close: the semaphore is closed *)
     intros Hc. sp. autorewrite with fld in Hc. sp. discriminate Hc.
-  - (* drop pool *)
-    apply WQ_same with (2 := eq_refl) (3 := eq_refl) (1 := eq_refl).
-    apply WQ_setpc; [|reflexivity]. apply WQ_same with s; autorewrite with fld; sp; try reflexivity. exact W.
 Qed.
